@@ -379,7 +379,7 @@ Proof.
           change [CAccess false fr hdr; CUnpoisonExpand p cur; CPoison p cur; CUnpoison p n]
             with ([CAccess false fr hdr; CUnpoisonExpand p cur; CPoison p cur] ++ [CUnpoison p n]).
           apply sh_fold_unpoison_last. apply in_range_spec. lia.
-      - destruct (alloc_inv c k s n e F I Hk Henv') as [I1 [[R [S1 _]]| (q & sz & unp & R & L1)]].
+      - destruct (alloc_inv c k s n e F I Henv') as [I1 [[R [S1 _]]| (q & sz & unp & R & L1)]].
         + pose proof (alloc_sh c k s sh n e F Hpo I Henv' H) as Q.
           destruct (alloc c s n e) as [[s1 r] cbs]. cbn in *. subst r s1. cbn. exact Q.
         + pose proof (alloc_sh c k s sh n e F Hpo I Henv' H) as Q.
